@@ -1,4 +1,5 @@
 """C14 - CellML 1.0/1.1 documents are faithfully transformed in permissive mode (structural clauses)."""
+import re
 from facts import walk, render, role, is_call, AnalysisBroken
 from engines import render_x, ff, nth_arg, receiver, enclosing_conditions
 import issues
@@ -275,5 +276,25 @@ def run(F, rep):
     if not getattr(rep, 'nested', False):
         import c12
         c12.rule_h1(F, rep, 'C14.H1', [st for st in c12.STATE if st[0] == 'Parser::ParserImpl'])
+
+    # ------------------------------------------------------------------ E2: element tests name their element
+    rep.rule('C14.E2', 'in parser.cpp every test of the kind of a CellML element (isCellmlElement / isCellml1XElement / isCellml20Element / ...) names the element it looks for: with the name left out the test is true for ANY element of that namespace '
+                       '(the first 1.x child of a <connection> is then taken for its map_components)')
+    n_e2 = 0
+    for g in F.funcs.values():
+        if not g.file.endswith('/parser.cpp'):
+            continue
+        for c in g.walk():
+            if c.get('k') == 'Call' and c.get('mc') and re.match(r'^isCellml\w*Element$', c.get('fn') or ''):
+                n_e2 += 1
+                a = c['c'][1] if len(c.get('c', [])) > 1 else None
+                named = a is not None and a.get('k') != 'DefArg' and any(x.get('k') == 'Str' or (x.get('k') == 'Ref' and x.get('dk') == 'parm') for x in walk(a))
+                if not named and g.name == 'nodesCellMl1XVersion':
+                    rep.exempt('C14.E2', 'nodesCellMl1XVersion|namespace only', 'asks which 1.x namespace the element is in, whatever the element: that is what the message needs')
+                    continue
+                rep.check(named, 'C14.E2', '%s|%s@%s' % (g.short.split('::')[-1], c['fn'], sum(1 for x in g.walk() if x.get('k') == 'Call' and x.get('fn') == c['fn'] and x.get('l', 0) < c.get('l', 0))), g.where(c),
+                          '%s calls `%s` without naming the element' % (g.short, render(c)[:50]), 'named')
+    if n_e2 < 10:
+        raise AnalysisBroken('C14.E2: only %d element-kind tests in parser.cpp (19 confirmed)' % n_e2)
 
 
